@@ -131,7 +131,7 @@ func runC15(r *mon.Run) {
 			defer os.RemoveAll(dir)
 		}
 	}
-	nLists := r.Pick(6000, 200000)
+	nLists := r.Pick(6000, 600000)
 	rng := r.Rand("lists")
 	seeds := make([]uint64, nLists)
 	for i := range seeds {
@@ -280,7 +280,7 @@ func c15List(r *mon.Run, jr *rand.Rand, vals []*big.Int, lg *c15logger, idx int)
 func c15Expansion(r *mon.Run, lg *c15logger) {
 	rng := r.Rand("expansion")
 	bitlens := []uint{1, 2, 255, 256, 257, 511, 512, 513, 1024, 2048, 0}
-	n := r.Pick(1500, 40000)
+	n := r.Pick(1500, 120000)
 	for i := 0; i < n; i++ {
 		var a, b *big.Int
 		if i%4 == 1 || i%4 == 3 {
@@ -328,7 +328,7 @@ func c15Expansion(r *mon.Run, lg *c15logger) {
 			}
 		}
 	}
-	for i := 0; i < r.Pick(800, 20000); i++ {
+	for i := 0; i < r.Pick(800, 60000); i++ {
 		n := rng.IntN(300)
 		b := make([]byte, n)
 		for k := range b {
